@@ -273,9 +273,11 @@ func optStr(t *rapid.T, label string) *string {
 }
 
 // GenKid draws a child.
+var kidIDs = []string{"kidm", "kidc", "kidx", "kida", "kid9", "kid10", "Kidb", "9d1f"}
+
 func GenKid(t *rapid.T, parent string, i int) Kid {
 	return Kid{
-		ID:          "kid" + string(rune('a'+i)),
+		ID:          kidIDs[i%len(kidIDs)] + strings.Repeat("'", i/len(kidIDs)), // not in ascending order: a child list keeps the order it is given in
 		Parent:      parent,
 		Description: Str().Draw(t, "kidDesc"),
 		Vals:        sliceOf(t, toInt[int](intIn(-maxSafe, maxSafe)), "kidVals"),
